@@ -139,7 +139,8 @@ PROPERTIES = {
                            dict(func="VerifC06Flatten", reach=["C06/flatten/decided"], quick=dict(budget=120), thorough=dict(budget=400)),
                            dict(func="VerifC06Oneof", reach=["C06/oneof/decided", "C06/oneof/kf-unset", "C06/oneof/kf-nested"], quick=dict(budget=200), thorough=dict(budget=600)),
                            dict(func="VerifC06Unwrap", reach=["C06/unwrap/decided"], quick=dict(budget=200, parts=2), thorough=dict(budget=600, parts=4)),
-                           dict(func="VerifC06Builtin", reach=["C06/builtin/decided"], quick=dict(budget=60), thorough=dict(budget=120))]),
+                           dict(func="VerifC06Builtin", reach=["C06/builtin/decided"], quick=dict(budget=60), thorough=dict(budget=120)),
+                           dict(func="VerifC06Parameters", reach=["C06/params/decided"], quick=dict(budget=100), thorough=dict(budget=300))]),
             E_BINDING(overlay={"gen/binding/zz_verif_c06v.go": "harness/c06/c06_violations_e.go"},
                       init=[MOD + "/http", "verifmod/gen/binding", "buf.build/gen/go/bufbuild/protovalidate/protocolbuffers/go/buf/validate"],
                       harnesses=[dict(func="VerifC06ValidationErrorBody", reach=["C06/validation-body/decided"], quick=dict(budget=100), thorough=dict(budget=300))]),
@@ -148,7 +149,7 @@ PROPERTIES = {
                 assumptions=["the wire form is the documented mapping M (DESIGN.md Appendix A); that the emitted Go code produces M is C04/C05's obligation and their findings carry over",
                              "only definitions the annotation rules accept (Appendix B); fields marked required by buf.validate are outside this harness (the message is assumed to satisfy its own rules)",
                              "pattern, format, description and examples are treated as annotations; YAML/JSON rendering of the document is outside (in-memory base.Schema objects are evaluated)",
-                             "parameters (path/query/header) are not evaluated here yet",
+                             "path and query parameter schemas are decided by type category and required flag (12 kinds each); header parameters are not evaluated",
                              "validation-error body (emitted convertProtovalidateError, E-mode): 1-2 violations, each message-level (no path), with an empty path object, or with a path of 1-2 non-empty element names; the rule message is non-empty (protovalidate supplies one for its standard rules)"]),
     "C07": dict(
         groups=[
